@@ -126,12 +126,15 @@ func (w *routeWorld) randWeight() string {
 	switch r.N(7) {
 	case 0:
 		return "1"
+	case 3:
+		if r.N(4) > 0 {
+			return fmt.Sprintf("%d", 1+r.N(9))
+		}
+		return "0.000000000000000001"
 	case 1:
 		return fmt.Sprintf("%d", 1+r.N(100))
 	case 2:
 		return fmt.Sprintf("0.%d", 1+r.N(999))
-	case 3:
-		return "0.000000000000000001"
 	case 4:
 		return fmt.Sprintf("%d.%018d", r.N(1000), 1+r.N(999999999))
 	case 5:
@@ -143,59 +146,91 @@ func (w *routeWorld) randWeight() string {
 // gen builds a valid route din -> dout from pools not in `used`; nil if it cannot.
 func (w *routeWorld) gen(din, dout string, depth int, used map[uint64]bool) *swaptypes.Route {
 	r := w.e.R
-	kind := 0
+	kind := 0 // 0 pool, 1 series, 2 parallel
 	if depth > 0 {
-		kind = r.N(4) // 0,1 pool; 2 series; 3 parallel
+		switch r.N(8) {
+		case 0:
+			kind = 0
+		case 1, 2, 3:
+			kind = 1
+		default:
+			kind = 2
+		}
 	}
-	if din == dout && kind < 2 {
-		kind = 2
+	if din == dout && kind == 0 {
+		if depth == 0 {
+			return nil
+		}
+		kind = 1
 	}
-	if din == dout && depth == 0 {
-		return nil
+	trial := map[uint64]bool{}
+	for k := range used {
+		trial[k] = true
+	}
+	commit := func() {
+		for k := range trial {
+			used[k] = true
+		}
 	}
 	switch kind {
-	case 2:
+	case 1:
 		n := 1 + r.N(4)
-		if din == dout && n < 2 {
+		if n == 1 && (din == dout || r.N(3) > 0) {
 			n = 2
 		}
 		den := []string{din}
 		for i := 1; i < n; i++ {
 			d := routeDenoms[r.N(len(routeDenoms))]
-			if d == den[len(den)-1] && depth <= 1 {
-				d = routeDenoms[(r.N(len(routeDenoms)-1)+1+indexOf(routeDenoms, d))%len(routeDenoms)]
+			if depth <= 1 && d == den[len(den)-1] {
+				d = routeDenoms[(indexOf(routeDenoms, d)+1+r.N(len(routeDenoms)-1))%len(routeDenoms)]
 			}
 			den = append(den, d)
 		}
-		den = append(den, dout)
-		if n >= 2 && den[n-1] == dout && depth <= 1 {
-			return nil
+		if depth <= 1 && n >= 2 && den[n-1] == dout {
+			// the last hop would be a pool with equal denoms: pick another intermediate
+			for _, d := range routeDenoms {
+				if d != dout && (n < 3 || d != den[n-2]) {
+					den[n-1] = d
+					break
+				}
+			}
 		}
+		den = append(den, dout)
 		var rs []swaptypes.Route
 		for i := 0; i < n; i++ {
-			x := w.gen(den[i], den[i+1], depth-1, used)
+			x := w.gen(den[i], den[i+1], depth-1, trial)
 			if x == nil {
-				return nil
+				rs = nil
+				break
 			}
 			rs = append(rs, *x)
 		}
-		return &swaptypes.Route{DenomIn: din, DenomOut: dout, Strategy: &swaptypes.Route_Series{Series: &swaptypes.RouteSeries{Routes: rs}}}
-	case 3:
+		if rs != nil {
+			commit()
+			return &swaptypes.Route{DenomIn: din, DenomOut: dout, Strategy: &swaptypes.Route_Series{Series: &swaptypes.RouteSeries{Routes: rs}}}
+		}
+	case 2:
 		n := 1 + r.N(4)
+		if n == 1 && r.N(3) > 0 {
+			n = 2
+		}
 		var rs []swaptypes.Route
 		var ws []string
 		for i := 0; i < n; i++ {
-			x := w.gen(din, dout, depth-1, used)
+			x := w.gen(din, dout, depth-1, trial)
 			if x == nil {
-				if i == 0 {
-					return nil
-				}
 				break
 			}
 			rs = append(rs, *x)
 			ws = append(ws, w.randWeight())
 		}
-		return &swaptypes.Route{DenomIn: din, DenomOut: dout, Strategy: &swaptypes.Route_Parallel{Parallel: &swaptypes.RouteParallel{Routes: rs, Weights: ws}}}
+		if len(rs) > 0 {
+			commit()
+			return &swaptypes.Route{DenomIn: din, DenomOut: dout, Strategy: &swaptypes.Route_Parallel{Parallel: &swaptypes.RouteParallel{Routes: rs, Weights: ws}}}
+		}
+	}
+	if din == dout {
+		return nil
 	}
 	var cand []uint64
 	for _, p := range w.pools {
@@ -485,10 +520,33 @@ func (w *routeWorld) setup(h int) error {
 	w.pools = nil
 	w.qs = swapkeeper.NewQueryServerImpl(c.App.SwapKeeper)
 	lpAddr := c.Accs[0].Addr.String()
-	np := 8 + r.N(7)
+	np := 12 + r.N(7)
+	pairs := [][2]int{}
+	for i := range routeDenoms {
+		for j := range routeDenoms {
+			if i != j {
+				pairs = append(pairs, [2]int{i, j})
+			}
+		}
+	}
 	for i := 0; i < np; i++ {
 		a := r.N(len(routeDenoms))
 		b := (a + 1 + r.N(len(routeDenoms)-1)) % len(routeDenoms)
+		if i < 6 {
+			// every unordered pair gets at least one pool (random orientation)
+			k := 0
+			for _, pr := range pairs {
+				if pr[0] < pr[1] {
+					if k == i {
+						a, b = pr[0], pr[1]
+						if r.Bool() {
+							a, b = b, a
+						}
+					}
+					k++
+				}
+			}
+		}
 		fee := r.Pick("0", "0.003", "0.01", "0.0005", "0.003")
 		resp, err, p := c.Exec(&lptypes.MsgCreatePool{Authority: lpAddr, DenomBase: routeDenoms[a], DenomQuote: routeDenoms[b], FeeRate: fee, PriceRatio: "1.0001", BaseOffset: r.Pick("0.5", "0", "0.5")})
 		if err != nil || p != nil {
@@ -497,7 +555,7 @@ func (w *routeWorld) setup(h int) error {
 		id := resp.(*lptypes.MsgCreatePoolResponse).Id
 		w.pools = append(w.pools, rpool{id, routeDenoms[a], routeDenoms[b]})
 		// first position: wide range around the initial price
-		baseAmt := sdkmath.NewIntFromBigInt(r.Big(9)).Add(sdkmath.NewInt(1_000_000)).MulRaw(1000)
+		baseAmt := sdkmath.NewIntFromBigInt(r.Big(9)).MulRaw(1_000_000).Add(sdkmath.NewInt(1_000_000_000_000))
 		num := int64(1 + r.N(4))
 		den := int64(1 + r.N(4))
 		quoteAmt := baseAmt.MulRaw(num).QuoRaw(den)
@@ -588,9 +646,9 @@ func (w *routeWorld) history(h int) {
 		for try := 0; try < 50 && rt == nil; try++ {
 			din = routeDenoms[r.N(len(routeDenoms))]
 			dout = routeDenoms[r.N(len(routeDenoms))]
-			depth := r.N(5)
-			if depth > 0 && r.N(3) == 0 {
-				depth--
+			depth := 1 + r.N(4)
+			if r.N(7) == 0 {
+				depth = 0
 			}
 			rt = w.gen(din, dout, depth, map[uint64]bool{})
 		}
@@ -599,7 +657,7 @@ func (w *routeWorld) history(h int) {
 			continue
 		}
 		kind := "valid"
-		if r.N(4) == 0 {
+		if r.N(10) < 3 {
 			if m := w.malform(rt); m != "" {
 				kind = m
 			}
@@ -620,7 +678,7 @@ func (w *routeWorld) history(h int) {
 		case 1:
 			amount = sdkmath.NewIntFromBigInt(r.Big(22))
 		default:
-			amount = sdkmath.NewIntFromBigInt(r.Big(11))
+			amount = sdkmath.NewIntFromBigInt(r.Big(10))
 		}
 		sender := freshAddr("s", h, k)
 		sname := fmt.Sprintf("s%d", k)
